@@ -714,11 +714,12 @@ class Gen:
             prev = t
         return bytes(out)
 
-    @staticmethod
-    def need_sep(a, b):
-        wordish = b"_abcdefghijklmnopqrstuvwxyzABCDEFGHIJKLMNOPQRSTUVWXYZ0123456789"
-        if a[-1:] in [bytes([c]) for c in wordish] and (
-                b[:1] in [bytes([c]) for c in wordish] or b[:1] in (b".", b"-")):
+    WORDISH = frozenset(b"_abcdefghijklmnopqrstuvwxyzABCDEFGHIJKLMNOPQRSTUVWXYZ0123456789")
+    WORDISH_NEXT = WORDISH | frozenset(b".-")
+
+    @classmethod
+    def need_sep(cls, a, b):
+        if a[-1] in cls.WORDISH and b[0] in cls.WORDISH_NEXT:
             return True
         if a.endswith(b'"') and b.startswith(b'"'):
             return True
@@ -845,7 +846,7 @@ class Gen:
     def selection_set(self, depth):
         r = self.r
         out = [b"{"]
-        for _ in range(r.randint(1, 4)):
+        for _ in range(r.choice([1, 1, 2, 2, 3])):
             out += self.selection(depth)
         return out + [b"}"]
 
@@ -870,7 +871,7 @@ class Gen:
     def operation(self):
         r = self.r
         if r.random() < 0.3:
-            return self.selection_set(3)
+            return self.selection_set(2)
         out = [r.choice([b"query", b"mutation", b"subscription"])]
         if r.random() < 0.7:
             out.append(self.name())
@@ -882,7 +883,7 @@ class Gen:
                     out += [b"="] + self.value(2, True)
             out.append(b")")
         out += self.directives()
-        return out + self.selection_set(3)
+        return out + self.selection_set(r.choice([1, 2, 2, 3]))
 
     def fragment(self):
         out = [b"fragment", self.name(0.05), b"on", self.name()]
@@ -969,7 +970,7 @@ class Gen:
         r = self.r
         toks = []
         ts = r.random() < 0.3
-        for _ in range(r.choice([1, 1, 1, 2, 2, 3])):
+        for _ in range(r.choice([1, 1, 1, 1, 2, 3])):
             x = r.random()
             if ts and x < 0.6:
                 toks += self.type_system()
@@ -1279,28 +1280,29 @@ def deep_eq(a, b):
     return True
 
 
-def run(args):
-    t0 = time.time()
-    build("so")
-    shim = Shim()
-    corpus, counts = build_corpus(args.n, args.seed)
-    t1 = time.time()
-    print("corpus: %d inputs in %.1fs  %s" % (
-        len(corpus), t1 - t0,
-        " ".join("%s=%d" % kv for kv in sorted(counts.items()))), flush=True)
+_CORPUS = []
+_SHIM = None
 
-    equal = both_reject = 0
+
+def _work(bounds):
+    """Compare corpus[start:end]; runs in a (forked) worker process."""
+    global _SHIM
+    if _SHIM is None:
+        _SHIM = Shim()
+    shim = _SHIM
+    start, end = bounds
+    equal = both_reject = accepted = rejected = 0
     disagreements = []
-    crc = 0
-    accepted = rejected = 0
-    for idx, src in enumerate(corpus):
+    crcs = []
+    for idx in range(start, end):
+        src = _CORPUS[idx]
         s_json, s_err = shim.parse(src)
         if s_json is not None:
             accepted += 1
-            crc = zlib.crc32(b"A" + s_json + b"\n", crc)
+            crcs.append(zlib.crc32(b"A" + s_json))
         else:
             rejected += 1
-            crc = zlib.crc32(b"R" + s_err + b"\n", crc)
+            crcs.append(zlib.crc32(b"R" + s_err))
         try:
             p_json = pyparser.parse_to_json(src)
             p_err = None
@@ -1334,10 +1336,39 @@ def run(args):
             equal += 1
         else:
             disagreements.append((idx, src, "shim: %r" % s_json[:400], "pyparser: %r" % p_json[:400]))
+    return equal, both_reject, accepted, rejected, struct.pack("<%dI" % len(crcs), *crcs), disagreements
+
+
+def run(args):
+    global _CORPUS
+    t0 = time.time()
+    build("so")
+    corpus, counts = build_corpus(args.n, args.seed)
+    _CORPUS = corpus
+    t1 = time.time()
+    print("corpus: %d inputs in %.1fs  %s" % (
+        len(corpus), t1 - t0,
+        " ".join("%s=%d" % kv for kv in sorted(counts.items()))), flush=True)
+
+    step = 400
+    chunks = [(i, min(i + step, len(corpus))) for i in range(0, len(corpus), step)]
+    jobs = args.jobs if args.jobs > 0 else min(8, os.cpu_count() or 1)
+    if jobs > 1:
+        import multiprocessing
+        with multiprocessing.get_context("fork").Pool(jobs) as pool:
+            results = pool.map(_work, chunks, chunksize=1)
+    else:
+        results = [_work(c) for c in chunks]
+    equal = sum(x[0] for x in results)
+    both_reject = sum(x[1] for x in results)
+    accepted = sum(x[2] for x in results)
+    rejected = sum(x[3] for x in results)
+    crc = zlib.crc32(b"".join(x[4] for x in results))
+    disagreements = [d for x in results for d in x[5]]
     t2 = time.time()
-    print("compared in %.1fs" % (t2 - t1))
+    print("compared in %.1fs (%d jobs)" % (t2 - t1, jobs))
     print("inputs=%d both-accept-equal=%d both-reject=%d disagreements=%d" % (
-        len(corpus), equal, both_reject, len(disagreements)))
+        len(corpus), equal, both_reject, len(disagreements)), flush=True)
 
     asan_inputs = 0
     asan_reports = 0
@@ -1404,6 +1435,8 @@ def main():
     ap.add_argument("--asan", action="store_true",
                     help="also run the corpus through the ASan/UBSan driver")
     ap.add_argument("--summary", metavar="FILE")
+    ap.add_argument("--jobs", type=int, default=0,
+                    help="worker processes for the comparison (default: min(8, cpus))")
     sys.exit(run(ap.parse_args()))
 
 
